@@ -154,15 +154,16 @@ def ext_cases(seed, tier, consts, pid):
                     gd(0, 0, dmax, 1, fail='ret', copylike=True, ref=(('ok', (s + [0] * dmax)[:dmax], None) if L <= dmax else None), readonly=[(1, 0, len(src))]), L=L, prior=prior)
             # memccpy_s(dest, dmax, src, c, n, destbos, srcbos): copy up to and including the first c, at most n
             for nn in sorted(set(x for x in (1, dmax - 1, dmax, dmax + 1) if x >= 1)):
-                for where in ('none', 'first', 'mid', 'last'):
-                    body = [rng.choice([0x61, 0x62, 0x00, 0xe9]) for _ in range(nn)]; c = 0x3b
+                for where, c in [(wh, 0x3b) for wh in ('none', 'first', 'mid', 'last')] + [('mid', 0xe9), ('last', 0xe9), ('none', 0xe9), ('last', 0xff), ('mid', 0x00), ('last', 0x80)]:
+                    body = [rng.choice([0x61, 0x62, 0x00, 0xe9]) for _ in range(nn)]
                     if where != 'none':
                         p = {'first': 0, 'mid': nn // 2, 'last': nn - 1}[where]; body[p] = c
+                    else: body = [x if x != c else 0x61 for x in body]
                     stop = body.index(c) + 1 if c in body else nn
                     dest = fam_copy.garbage(rng, dmax)
                     refm = ('ok', body[:stop], None) if (nn <= dmax and (c in body or nn < dmax)) else ('fail',)
                     g = gd(0, 0, dmax, 1, fail='ret', copylike=True, ref=refm, readonly=[(1, 0, nn)]); g['mem'] = True
-                    add('memccpy_s', [('R', dest), ('R', bytes(body))], [(0, 0), dmax, (1, 0), c, nn, UNK, UNK], g, n=nn, where=where)
+                    add('memccpy_s', [('R', dest), ('R', bytes(body))], [(0, 0), dmax, (1, 0), c, nn, UNK, UNK], g, n=nn, where=where, c=c)
         # wide memory copies (elements of 4 bytes)
         for smax in sorted(set(x for x in (1, dmax - 1, dmax, dmax + 1) if x >= 1)):
             wsrc = fam_copy.enc([rng.randrange(1, 0x10ffff) for _ in range(smax)], 4); wdest = fam_copy.garbage(rng, 4 * dmax)
@@ -340,7 +341,7 @@ def conv_gd(x):
     single = m['op'] in ('wcrtomb', 'wctomb')
     wr = [(0, 0, 8)] + ([(3, 0, 8), (4, 0, 8)] if m['op'] in ('mbsrtowcs', 'wcsrtombs') else []) + ([(2, 0, 16)] if m['op'] == 'wcrtomb' else [])
     ref = None
-    if not single and m.get('valid') and m.get('kind') == 'ok':
+    if not single and m.get('valid') and m.get('kind') in ('ok', 'len>dmax'):
         # what the standard function delivers limited to len (whole characters only); it must fit dmax together with the terminator
         s_ = m['chars']
         if wide: deliver = list(s_[:m['len']])
@@ -362,10 +363,12 @@ def fmt_cases(seed, tier, consts):
     import props
     rng = random.Random(seed * 11 + 1); cs = []; i = 0
     texts = [(b'%s', [b'abcdefgh'], 8), (b'%d', [12345678], 8), (b'id=%c%04u', [0x41, 42], 8), (b'%s-%s', [b'ab', b'cde'], 6), (b'%5s|', [b'xy'], 6),
-             (b'%x', [0xabc], 3), (b'plain', [], 5), (b'%s', [b''], 0), (b'%-4d.', [7], 5), (b'%lu', [4294967296], 10)]
+             (b'%x', [0xabc], 3), (b'plain', [], 5), (b'%s', [b''], 0), (b'%-4d.', [7], 5), (b'%lu', [4294967296], 10),
+             # padded fields: the bare argument fits where the field starts, the padded field does not
+             (b'%10s', [b'abcdef'], 10), (b'ab%6s', [b'xyz'], 8), (b'%-8s|', [b'abc'], 9), (b'%6c', [0x41], 6), (b'%08d', [-42], 8), (b'%3s%7d', [b'q', 5], 10)]
     for fmt, args, tl in texts:
         for func in ('x:sprintf_s', 'x:snprintf_s', 'x:vsprintf_s', 'x:vsnprintf_s'):
-            for dmax in sorted(set(d for d in (1, tl - 1, tl, tl + 1, tl + 2, tl + 40) if d >= 1)):
+            for dmax in sorted(set(list(range(1, tl + 3)) + [tl + 40])):
                 i += 1; c = props.c11_case('g%d' % i, func, fmt, args, dmax, rng)
                 trunc_ok = func in ('x:snprintf_s', 'x:vsnprintf_s')
                 c.meta.update(cls='sweep-fmt', func=func, textlen=tl, noop=False,
